@@ -217,8 +217,9 @@ theorem prox_ok_of_hasProx (E : Env α) (hE : E.ShapeOk) :
   | lossNone y A s => intro v lam h; simp [hasProx] at h
   | loss y A f s ih =>
     intro v lam h hg hc
+    have hguard := h
     simp only [hasProx, Bool.and_eq_true] at h
-    obtain ⟨⟨hA, hf⟩, _⟩ := h
+    obtain ⟨hA, hf⟩ := h
     cases A with
     | some i => simp at hA
     | none =>
@@ -229,7 +230,7 @@ theorem prox_ok_of_hasProx (E : Env α) (hE : E.ShapeOk) :
       obtain ⟨q, hq, hqs⟩ := ih (Arg.zipT (· - ·) v y) (s * lam) hf hg (hcf _ hd)
       have hqy : q.shapeEq y := Arg.shapeEq_trans hqs (Arg.shapeEq_trans hd hvy)
       refine ⟨Arg.zipT (· + ·) q y, ?_, Arg.shapeEq_trans (Arg.zipT_shapeEq hqy) (Arg.shapeEq_trans hqs hd)⟩
-      simp [prox, Arg.sub, Arg.add, Arg.zip_ok hvy, hq, Arg.zip_ok hqy, bind, Except.bind]
+      simp [prox, hf, Arg.sub, Arg.add, Arg.zip_ok hvy, hq, Arg.zip_ok hqy, bind, Except.bind]
   | sqL2 y A w s => intro v lam _ hg; exact hg.elim
 
 /-- a `SquaredL2Loss` with a linear forward operator returns a value on conforming arguments -/
@@ -406,29 +407,41 @@ theorem Arg.add_sub_cancel {q y : Arg ℝ} (h : q.shapeEq y) :
   · simp [Arg.zipT, zipWith_add_sub _ _ h]
   · simp [Arg.zipT, blk_add_sub _ _ h]
 
+/-- every generic `Loss` node has a positive scale (documented use of `Loss`: `α f(y − A x)`, `α > 0`;
+    the flag of a `Loss` does not look at its scale) -/
+def LossScalesPos : Fn ℝ → Prop
+  | .leaf _ => True
+  | .scaled _ f => LossScalesPos f
+  | .sum f g => LossScalesPos f ∧ LossScalesPos g
+  | .snil => True
+  | .scons f r => LossScalesPos f ∧ LossScalesPos r
+  | .lossNone _ _ s => 0 < s
+  | .loss _ _ f s => 0 < s ∧ LossScalesPos f
+  | .sqL2 _ _ _ s => 0 < s
+
 /-- **soundness for all nestings** -/
 theorem tree_sound (E : Env ℝ) (S : LeafSem) (hS : LeafSound E S) :
-    ∀ (t : Fn ℝ) (v p : Arg ℝ) {lam : ℝ}, 0 < lam → hasProx E t = true → Generic t →
+    ∀ (t : Fn ℝ) (v p : Arg ℝ) {lam : ℝ}, 0 < lam → hasProx E t = true → Generic t → LossScalesPos t →
       prox E t v lam = .ok p → IsProxA (dom E S t) (den E S t) lam v p := by
   intro t
   induction t with
   | leaf i =>
-    intro v p lam hl h _ hr
+    intro v p lam hl h _ _ hr
     simp only [hasProx] at h
     simp only [prox, h, if_true, Except.ok.injEq] at hr
     subst hr
     exact hS i v lam hl h
   | scaled c f ih =>
-    intro v p lam hl h hg hr
+    intro v p lam hl h hg hls hr
     simp only [hasProx, Bool.and_eq_true, decide_eq_true_eq] at h
-    obtain ⟨h1, h2, h3⟩ := ih v p (mul_pos hl h.2) h.1 hg hr
+    obtain ⟨h1, h2, h3⟩ := ih v p (mul_pos hl h.2) h.1 hg hls hr
     refine ⟨h1, h2, fun x hx hdx => ?_⟩
     have := h3 x hx hdx
     simp only [den]
     linarith
   | sum f g _ _ => intro v p lam _ h; simp [hasProx] at h
   | snil =>
-    intro v p lam _ _ _ hr
+    intro v p lam _ _ _ _ hr
     match v with
     | .arr _ => simp [prox] at hr
     | .blk (_ :: _) => simp [prox] at hr
@@ -443,7 +456,7 @@ theorem tree_sound (E : Env ℝ) (S : LeafSem) (hS : LeafSound E S) :
         subst hx
         simp [den]
   | scons f r ihf ihr =>
-    intro v p lam hl h hg hr
+    intro v p lam hl h hg hls hr
     simp only [hasProx, Bool.and_eq_true] at h
     match v with
     | .arr _ => simp [prox] at hr
@@ -456,8 +469,8 @@ theorem tree_sound (E : Env ℝ) (S : LeafSem) (hS : LeafSound E S) :
         cases hpr : prox E r (.blk bs) lam with
         | error e => simp [hpa, hpr] at hr
         | ok pr =>
-          obtain ⟨a1, a2, a3⟩ := ihf (.arr b) pa hl h.1 hg.1 hpa
-          obtain ⟨r1, r2, r3⟩ := ihr (.blk bs) pr hl h.2 hg.2 hpr
+          obtain ⟨a1, a2, a3⟩ := ihf (.arr b) pa hl h.1 hg.1 hls.1 hpa
+          obtain ⟨r1, r2, r3⟩ := ihr (.blk bs) pr hl h.2 hg.2 hls.2 hpr
           cases pa with
           | blk _ => simp [Arg.shapeEq] at a1
           | arr p0 =>
@@ -481,13 +494,16 @@ theorem tree_sound (E : Env ℝ) (S : LeafSem) (hS : LeafSound E S) :
                   linarith
   | lossNone y A s => intro v p lam _ h; simp [hasProx] at h
   | loss y A f s ih =>
-    intro v p lam hl h hg hr
-    simp only [hasProx, Bool.and_eq_true, decide_eq_true_eq] at h
-    obtain ⟨⟨hA, hf⟩, hs⟩ := h
+    intro v p lam hl h hg hls hr
+    have hguard := h
+    simp only [hasProx, Bool.and_eq_true] at h
+    obtain ⟨hA, hf⟩ := h
+    obtain ⟨hs, hlsf⟩ := hls
     cases A with
     | some i => simp at hA
     | none =>
-      simp only [prox, bind, Except.bind] at hr
+      simp only [hasProx] at hguard
+      simp only [prox, hguard, if_true, bind, Except.bind] at hr
       cases hd : Arg.sub v y with
       | error e => simp [hd] at hr
       | ok d =>
@@ -497,7 +513,7 @@ theorem tree_sound (E : Env ℝ) (S : LeafSem) (hS : LeafSound E S) :
           simp only [hd, hq] at hr
           obtain ⟨hvy, rfl⟩ := Arg.zip_eq_ok hd
           obtain ⟨hqy, rfl⟩ := Arg.zip_eq_ok hr
-          obtain ⟨q1, q2, q3⟩ := ih _ q (mul_pos hs hl) hf hg hq
+          obtain ⟨q1, q2, q3⟩ := ih _ q (mul_pos hs hl) hf hg hlsf hq
           have hdv : (Arg.zipT (· - ·) v y).shapeEq v := Arg.zipT_shapeEq hvy
           have hpq : (Arg.zipT (· + ·) q y).shapeEq q := Arg.zipT_shapeEq hqy
           have hpv : (Arg.zipT (· + ·) q y).shapeEq v := Arg.shapeEq_trans hpq (Arg.shapeEq_trans q1 hdv)
